@@ -268,3 +268,25 @@ func VerifC15_Prepare() {
 	}
 	vnd.Cover("C15.prepare.checked")
 }
+
+// VerifC20_SlotDataRecordsBounded: the per-slot record of what was signed stays
+// bounded under the default configuration (nobody else cleans it up).
+func VerifC20_SlotDataRecordsBounded() {
+	s := &Service{slotDataRecords: map[phase0.Slot]synccommitteemessenger.SlotData{}}
+	slot := []phase0.Slot{1000, 7654321}[vnd.Choose("slot", 2)] // concrete: 100 map keys are compared pairwise
+	for back := phase0.Slot(1); back <= maxSlotDataRecordsBeforeCleanUp+1; back++ {
+		s.slotDataRecords[slot-back] = synccommitteemessenger.SlotData{}
+	}
+	s.UpdateSyncCommitteeDataRecord(slot, phase0.Root{1}, nil)
+	_, ok := s.slotDataRecords[slot]
+	vnd.Assert(ok, "C20.records.recorded")
+	vnd.Assert(len(s.slotDataRecords) <= maxSlotDataRecordsBeforeCleanUp+1, "C20.records.bounded-without-external-cleanup")
+	for k := range s.slotDataRecords {
+		if k+minSlotDataRecordsToKeep >= slot {
+			vnd.Cover("C20.records.recent-kept")
+		}
+	}
+	// recent records needed for inclusion verification are kept
+	_, recent := s.slotDataRecords[slot-1]
+	vnd.Assert(recent, "C20.records.recent-records-kept")
+}
